@@ -23,7 +23,19 @@ type Prop struct{}
 func (Prop) ID() string    { return "C13" }
 func (Prop) Level() string { return "exploration" }
 func (Prop) Configs(tier string) []string {
-	return []string{"c-default", "c-purego"}
+	// c-nopclmul / c-noaes: the symmetric decryptors run other code there (table-driven GHASH over the asm block, Go
+	// SM4); only the bindings that reach it directly (AEAD Open, pkcs content ciphers, SM9 block-mode decryption)
+	return []string{"c-default", "c-purego", "c-nopclmul", "c-noaes"}
+}
+
+// tierBinding: the entry points repeated on the further SM4 dispatch tiers.
+func tierBinding(name string) bool {
+	for _, p := range []string{"cipher.New", "pkcs.GetCipher+Decrypt[", "pkcs.Cipher.Decrypt[", "sm9.Decrypt[", "pkcs7.DecryptUsingPSK", "cfca.DecryptBySM4CBC"} {
+		if strings.Contains(name, p) {
+			return true
+		}
+	}
+	return false
 }
 
 func (Prop) Rule() string {
@@ -646,7 +658,13 @@ func (Prop) Run(c *engine.Ctx) {
 		if filter != "" && !strings.Contains(e.name, filter) {
 			continue
 		}
+		if (c.Config == "c-nopclmul" || c.Config == "c-noaes") && !tierBinding(e.name) {
+			continue
+		}
 		runEP(c, e)
+	}
+	if c.Config == "c-nopclmul" || c.Config == "c-noaes" {
+		return
 	}
 	if filter == "" || strings.Contains("sm9.KeyExchange/history", filter) {
 		runKXHist(c)
